@@ -35,6 +35,7 @@ class _State:
         self.depth = 0
         self.buffered = False
         self.realkill = False
+        self.tmp_reads = 0
 
 
 S = _State()
@@ -227,6 +228,8 @@ def _open(file, mode="r", *a, **k):
             if S.realkill:
                 return RealFile(real, rel)
             return FaultFile(real, rel)
+    if S.active and isinstance(file, (str, os.PathLike)) and str(file).endswith(".tmp"):
+        S.tmp_reads += 1  # somebody reads a temporary file: trees that differ in it are not equivalent
     return _orig["open"](file, mode, *a, **k)
 
 
@@ -301,6 +304,7 @@ class section:
         S.torn = self.torn
         S.buffered = self.buffered
         S.realkill = self.realkill
+        S.tmp_reads = 0
         S.frozen = False
         S.depth = 0
         S.crash_label = None
